@@ -162,9 +162,8 @@ CLAIMED["C01"] = dict(
          "traversal is freed and that of a re-emission is re-attached or freed, the done-counter advances exactly once by input size minus the "
          "sizes of the buffers kept for later work, the worker loops release locks, free the slot and publish every returned task, the run flag "
          "is cleared only under (no buffer in flight and done == requested), source batches equal what is counted as launched, external-source "
-         "tasks announce their packets only after storing them, the flush is scheduled once and holds its block's lock, photon batches "
-         "are handed out under the source's lock, and the per-source split of the request adds up to the request. Quiescence detection "
-         "under a racy schedule is not decided.",
+         "tasks announce their packets only after storing them, the flush is scheduled once and holds its block's lock, and photon batches "
+         "are handed out under the source's lock. Quiescence detection under a racy schedule and the per-source split arithmetic are not decided.",
     note="Trusted: clang, AST export; C08 container guarantees; the run flag is a plain bool eventually seen by all workers.")
 
 CLAIMED["C20"] = dict(
